@@ -11,6 +11,7 @@ C14.c  the initial request is the constant 0
 C14.d  access<T>() is a derived-to-base conversion of the apex (never a reinterpreting cast)
 """
 from gen import nfamily
+from lint.common import AnalysisBroken
 
 LEVEL = 'proof'
 
@@ -23,7 +24,17 @@ def run(run):
     except ImportError:
         dispatch_rules = None
     if dispatch_rules:
-        dispatch_rules.c14(run)
+        try:
+            dispatch_rules.c14(run)
+        except AnalysisBroken as e:
+            # the type-level family already reports the violation; the witness machines assert their own state ids and stop
+            # compiling when ids are wrong, so the dispatcher-shape rules have no facts to look at
+            if not any(not o['ok'] and o['rule'] == 'C14.a' for o in run.obligations):
+                raise
+            run.note('dispatcher-shape rules skipped: %s' % str(e)[:200])
+            run.floors.pop('C14.b', None)
+            run.floors.pop('C14.c', None)
+            run.floors.pop('C14.d', None)
     else:
         run.note('C14.b/c/d (dispatcher shape, initial request, access<T>) not built yet')
     run.extra['checker_cmd'] = 'clang++ -std=c++11 -fsyntax-only -ferror-limit=0 <generated N-family unit> (and g++ -fmax-errors=0); ./check C14'
